@@ -107,7 +107,7 @@ Definition cycle_whypsb (ro : ropts) (o : wopts) (hs : hdr_sections) (nt : list 
   match uniq c k_strt AW, uniq c k_stop AW, uniq c k_step AW, AC with
   | Some sit, Some pit, Some eit, c0 :: _ =>
       str_eqb (i_unit sit) (i_unit c0) && str_eqb (i_unit pit) (i_unit c0) && str_eqb (i_unit eit) (i_unit c0) &&
-      stop_agreesb fstr numeq fhex ro pit T
+      stop_agreesb fmtv fstr numeq fhex ro (col_fmt o 0%nat) pit T
   | _, _, _, _ => false
   end &&
   match uniq c k_null AW with
@@ -166,7 +166,7 @@ Proof.
   destruct (uniq (o_mcase ro) k_step (s_items (l_well (hs_las hs)))) as [eit|] eqn:EE; [|discriminate]. apply uniq_some in EE.
   destruct (s_items (l_curves (hs_las hs))) as [|c0 crest] eqn:EC; [discriminate|]. rewrite <- EC in *.
   repeat (apply andb_true_iff in HSSS as [HSSS ?]).
-  match goal with K : stop_agreesb _ _ _ _ _ _ = true |- _ => rename K into Hstop end.
+  match goal with K : stop_agreesb _ _ _ _ _ _ _ _ = true |- _ => rename K into Hstop end.
   repeat match goal with K : str_eqb (i_unit _) (i_unit c0) = true |- _ => apply ws_str_eqb_eq in K end.
   assert (Hpn : pn = pn_of fstr ro hs).
   { unfold pn_of. unfold null_read in Hnull. unfold uniq in *. fold k_null in Hnull.
@@ -198,7 +198,7 @@ Proof.
   rewrite Hidx in *.
   assert (Hcur : s_items (l_curves l) <> []).
   { intro E0. rewrite E0 in Hcl. unfold cn in Hcl. rewrite EC in Hcl. discriminate Hcl. }
-  pose proof (second_need fstr numeq fhex ro hs l pit cn pn T HlW Hdata Hc EP Hstop Hrefl Hcur) as Hneed.
+  pose proof (second_need fmtv fstr numeq fhex ro (col_fmt o 0%nat) hs l pit cn pn T HlW Hdata Hc EP Hstop Hrefl Hcur) as Hneed.
   (* the header of the second write *)
   assert (HwI : forall b, wo_wrap o = Some b -> expected_item fstr KVersion (o_mcase ro) wit = wrap_item b).
   { intros b Hb. rewrite Hb in HW. apply hitem_eqb_eq. exact HW. }
